@@ -106,6 +106,22 @@ def cmpFields (st : RibSt) (what : String) (model : List String) (impl : List St
     let extra := impl.filter (fun f => !model.contains f)
     st.diff what s!"only-in-model={missing} only-in-impl={extra}"
 
+/-- C18 monitor for an entry payload: the fields the builder calls set (last call wins) are the
+statement itself, so a difference is a violation, reported with the offending fields -/
+def monFields (st : RibSt) (what : String) (model : List String) (impl : List String) : RibSt :=
+  if permEq model impl then st
+  else
+    let missing := model.filter (fun f => !impl.contains f)
+    let extra := impl.filter (fun f => !model.contains f)
+    if extra.isEmpty then st.monfail "c18" s!"{what}: the payload lacks fields that were set: {missing}"
+    else st.monfail "c18" s!"{what}: the payload contains {extra}, which is not what the builder calls set (expected {missing})"
+
+/-- value of a numeric field in an implementation rendering (absent = 0, as proto3 renders) -/
+def implNum (impl : List String) (path : String) : Nat :=
+  match impl.find? (fun f => f.startsWith (path ++ "=")) with
+  | some f => ((f.drop (path.length + 1)).toNat?).getD 0
+  | none => 0
+
 def prefixOps (fss : List Fields) : List String :=
   let rec go (fss : List Fields) (i : Nat) : List String :=
     match fss with
@@ -166,7 +182,7 @@ def fluentLine (rs : RibSt) (fl : FlSt) (ts : List Tok) : RibSt × FlSt :=
           match fl.builders[k]? with
           | some e =>
             let model := renderFields (if c = "fl.op" then e.opProto else e.entryProto)
-            (cmpFields rs c model impl, fl)
+            (cmpFields (monFields rs c model impl) c model impl, fl)
           | none => (bad rs, fl)
         | _, _ => (bad rs, fl)
       | _, _ => (bad rs, fl)
@@ -186,6 +202,17 @@ def fluentLine (rs : RibSt) (fl : FlSt) (ts : List Tok) : RibSt × FlSt :=
             let rs := (List.range es.length).foldl (fun rs i =>
               if impl.contains ("operation#" ++ toString i ++ ".op=e" ++ toString ty) then rs
               else rs.monfail "c18" s!"operation {i} does not carry the requested operation type {ty}") rs
+            -- C18 monitor: every operation is stamped with the election id most recently set
+            let rs := (List.range es.length).foldl (fun rs i =>
+              match es[i]? with
+              | some e =>
+                match stampOf fl.client e with
+                | some (lo, hi) =>
+                  let p := "operation#" ++ toString i ++ ".election_id."
+                  if implNum impl (p ++ "low") = lo ∧ implNum impl (p ++ "high") = hi then rs
+                  else rs.monfail "c18" s!"operation {i} is stamped with election id (low {implNum impl (p ++ "low")}, high {implNum impl (p ++ "high")}) but the id most recently set (or given on the entry) is (low {lo}, high {hi})"
+                | none => rs
+              | none => rs) rs
             (cmpFields rs c (prefixOps fss) impl, { fl with client := c', lastId := fl.lastId + es.length })
           | none => (bad rs, fl)
         | _, _, _ => (bad rs, fl)
